@@ -1,10 +1,10 @@
-\* quick: all references of dimension <= 3, moments of plain references up to the documented maxima (line: 9),
+\* quick: line, triangle, tetrahedron, square, prism; moments of plain references up to the documented maxima (line: 8),
 \* children / trimmed configurations up to degree 4 (3 in 3D)
 SPECIFICATION Spec
 CONSTANTS
-  RefTypes <- MCRefs2
+  RefTypes <- MCRefsQ
   TrimRefs <- MCTrim2
-  DegRef = 9
+  DegRef = 8
   DegRegion = 4
   DegRegion3 = 3
   InvDeg = 2
